@@ -463,13 +463,75 @@ package jsonpatch
 
 //@ func MergePatch
 //@ func MergeMergePatches
-//@ func resemblesJSONArray
-//@   modifies nothing
-//@ func CreateMergePatch
-//@ func createObjectMergePatch
-//@ func createArrayMergePatch
+
+// ---- CreateMergePatch (C19): one level of the difference at a time (numbers are float64 in v4) ----
+// The decoded trees are map[string]interface{} / []interface{} / string / float64 / bool / nil (RIfaceMaps).
+
 //@ func matchesArray
 //@   modifies nothing
+//@   ensures[C19] length: result ==> len(a) == len(b)
+//@   ensures[C19] nil-vs-empty: result ==> ((a == nil) <==> (b == nil))
+//@   ensures[C19] empty: len(a) == 0 && len(b) == 0 && ((a == nil) <==> (b == nil)) ==> result
+
 //@ func matchesValue
 //@   modifies nothing
+//@   ensures[C19] kinds-differ: dyntype(av) != dyntype(bv) ==> !result
+//@   ensures[C19] strings: istype(av, string) && istype(bv, string) ==> (result <==> unbox(av, string) == unbox(bv, string))
+//@   ensures[C19] numbers-by-value: istype(av, float64) && istype(bv, float64) ==> (result <==> unbox(av, float64) == unbox(bv, float64))
+//@   ensures[C19] bools: istype(av, bool) && istype(bv, bool) ==> (result <==> unbox(av, bool) == unbox(bv, bool))
+//@   ensures[C19] nulls: av == nil && bv == nil ==> result
+//@   ensures[C19] objects-same-size: istype(av, map[string]any) && istype(bv, map[string]any) && result ==> len(unbox(av, map[string]any)) == len(unbox(bv, map[string]any))
+//@   ensures[C19] objects-same-names: istype(av, map[string]any) && istype(bv, map[string]any) && result ==> forall k string {domsel(unbox(bv, map[string]any), k)} :: k in unbox(bv, map[string]any) ==> k in unbox(av, map[string]any)
+//@   ensures[C19] arrays-same-length: istype(av, []any) && istype(bv, []any) && result ==> len(unbox(av, []any)) == len(unbox(bv, []any))
+//@   loop 1
+//@   invariant names-so-far: forall k string {domsel(unbox(bv, map[string]any), k)} :: visited(k) && k in unbox(bv, map[string]any) ==> k in unbox(av, map[string]any)
+
 //@ func getDiff
+//@   ensures[C04,C19] never-fails: err == nil && result.0 != nil && fresh(result.0)
+//@   ensures[C19] added-members: forall k string {domsel(b, k)} :: k in b && !(k in a) ==> k in result.0 && result.0[k] == b[k]
+//@   ensures[C19] removed-members-are-null: forall k string {domsel(a, k)} :: k in a && !(k in b) ==> k in result.0 && result.0[k] == nil
+//@   ensures[C19] kind-changed: forall k string {domsel(b, k)} :: k in b && k in a && dyntype(a[k]) != dyntype(b[k]) ==> k in result.0 && result.0[k] == b[k]
+//@   ensures[C19] mentions-only-members: forall k string {domsel(result.0, k)} :: k in result.0 ==> k in a || k in b
+//@   ensures[C19] changed-string: forall k string {domsel(b, k)} :: k in b && k in a && istype(a[k], string) && istype(b[k], string) ==> ((k in result.0) <==> unbox(a[k], string) != unbox(b[k], string)) && (k in result.0 ==> result.0[k] == b[k])
+//@   ensures[C19] changed-number: forall k string {domsel(b, k)} :: k in b && k in a && istype(a[k], float64) && istype(b[k], float64) ==> ((k in result.0) <==> unbox(a[k], float64) != unbox(b[k], float64)) && (k in result.0 ==> result.0[k] == b[k])
+//@   ensures[C19] changed-bool: forall k string {domsel(b, k)} :: k in b && k in a && istype(a[k], bool) && istype(b[k], bool) ==> ((k in result.0) <==> unbox(a[k], bool) != unbox(b[k], bool)) && (k in result.0 ==> result.0[k] == b[k])
+//@   ensures[C19] both-null-omitted: forall k string {domsel(b, k)} :: k in b && k in a && a[k] == nil && b[k] == nil ==> !(k in result.0)
+//@   ensures[C19] nested-object-is-a-difference: forall k string {domsel(b, k)} :: k in b && k in a && istype(a[k], map[string]any) && istype(b[k], map[string]any) && k in result.0 ==> istype(result.0[k], map[string]any) && len(unbox(result.0[k], map[string]any)) > 0
+//@   ensures[C19] changed-array-replaced: forall k string {domsel(b, k)} :: k in b && k in a && istype(a[k], []any) && istype(b[k], []any) && k in result.0 ==> result.0[k] == b[k]
+//@   loop 1
+//@   invariant into: into != nil && fresh(into)
+//@   invariant only-seen-members: forall k string {domsel(into, k)} :: k in into ==> visited(k) && k in b
+//@   invariant added-so-far: forall k string {domsel(b, k)} :: visited(k) && k in b && !(k in a) ==> k in into && into[k] == b[k]
+//@   invariant kind-changed-so-far: forall k string {domsel(b, k)} :: visited(k) && k in b && k in a && dyntype(a[k]) != dyntype(b[k]) ==> k in into && into[k] == b[k]
+//@   invariant strings-so-far: forall k string {domsel(b, k)} :: visited(k) && k in b && k in a && istype(a[k], string) && istype(b[k], string) ==> ((k in into) <==> unbox(a[k], string) != unbox(b[k], string)) && (k in into ==> into[k] == b[k])
+//@   invariant numbers-so-far: forall k string {domsel(b, k)} :: visited(k) && k in b && k in a && istype(a[k], float64) && istype(b[k], float64) ==> ((k in into) <==> unbox(a[k], float64) != unbox(b[k], float64)) && (k in into ==> into[k] == b[k])
+//@   invariant bools-so-far: forall k string {domsel(b, k)} :: visited(k) && k in b && k in a && istype(a[k], bool) && istype(b[k], bool) ==> ((k in into) <==> unbox(a[k], bool) != unbox(b[k], bool)) && (k in into ==> into[k] == b[k])
+//@   invariant nulls-so-far: forall k string {domsel(b, k)} :: visited(k) && k in b && k in a && a[k] == nil && b[k] == nil ==> !(k in into)
+//@   invariant nested-so-far: forall k string {domsel(b, k)} :: visited(k) && k in b && k in a && istype(a[k], map[string]any) && istype(b[k], map[string]any) && k in into ==> istype(into[k], map[string]any) && len(unbox(into[k], map[string]any)) > 0
+//@   invariant arrays-so-far: forall k string {domsel(b, k)} :: visited(k) && k in b && k in a && istype(a[k], []any) && istype(b[k], []any) && k in into ==> into[k] == b[k]
+//@   loop 2
+//@   invariant into: into != nil && fresh(into)
+//@   invariant only-members: forall k string {domsel(into, k)} :: k in into ==> k in b || (visited(k) && k in a)
+//@   invariant removed-so-far: forall k string {domsel(a, k)} :: visited(k) && k in a && !(k in b) ==> k in into && into[k] == nil
+//@   invariant members-of-b-kept: forall k string {domsel(b, k)} :: k in b ==> ((k in into) <==> atentry(k in into)) && into[k] == atentry(into[k])
+
+//@ func resemblesJSONArray
+//@   modifies nothing
+//@   ensures[C19] array-root-resembles: wf(input) && kind(val(bytes(input))) == KArr ==> result
+//@   ensures[C19] other-roots-do-not: wf(input) && kind(val(bytes(input))) != KArr ==> !result
+
+//@ func createObjectMergePatch
+//@   callsite[C19] getDiff#1 difference-of-the-two-decoded-documents: arg_a == originalDoc && arg_b == modifiedDoc
+//@   callsite[C19] Marshal#1 the-difference-is-what-is-returned: arg_v == dest
+//@   ensures[C19] rejects-ill-formed: !wf(originalJSON) || !wf(modifiedJSON) ==> err != nil && result.0 == nil
+//@   ensures[C19] rejects-non-objects: wf(originalJSON) && wf(modifiedJSON) && ((kind(val(bytes(originalJSON))) != KObj && kind(val(bytes(originalJSON))) != KNull) || (kind(val(bytes(modifiedJSON))) != KObj && kind(val(bytes(modifiedJSON))) != KNull)) ==> err != nil && result.0 == nil
+
+//@ func createArrayMergePatch
+//@   callsite[C19] createObjectMergePatch#1 element-by-element: arg_originalJSON == originalDocs[i] && arg_modifiedJSON == modifiedDocs[i]
+//@   ensures[C19] rejects-ill-formed: !wf(originalJSON) || !wf(modifiedJSON) ==> err != nil && result.0 == nil
+//@   ensures[C19] rejects-different-lengths: wf(originalJSON) && wf(modifiedJSON) && kind(val(bytes(originalJSON))) == KArr && kind(val(bytes(modifiedJSON))) == KArr && jlen(val(bytes(originalJSON))) != jlen(val(bytes(modifiedJSON))) ==> err != nil && result.0 == nil
+
+//@ func CreateMergePatch
+//@   ensures[C19] rejects-ill-formed: !wf(originalJSON) || !wf(modifiedJSON) ==> err != nil
+//@   ensures[C19] rejects-mixed-roots: wf(originalJSON) && wf(modifiedJSON) && ((kind(val(bytes(originalJSON))) == KArr) != (kind(val(bytes(modifiedJSON))) == KArr)) ==> err != nil && result.0 == nil
+//@   ensures[C19] rejects-scalar-roots: wf(originalJSON) && wf(modifiedJSON) && kind(val(bytes(originalJSON))) != KArr && kind(val(bytes(modifiedJSON))) != KArr && ((kind(val(bytes(originalJSON))) != KObj && kind(val(bytes(originalJSON))) != KNull) || (kind(val(bytes(modifiedJSON))) != KObj && kind(val(bytes(modifiedJSON))) != KNull)) ==> err != nil
